@@ -49,6 +49,19 @@ CHECKS = {
             'model for the responsible handler, exact ACK multiset at the '
             'server, outstanding-id model for callbacks, call() shaping and '
             'TimeoutError in virtual time.'),
+    'C10': ('DESIGN 4/C10',
+            'Seeded search over configurations (delay, delay_max, '
+            'randomization factor, attempts, reconnection on/off) x causes '
+            'of the end (abrupt loss told at once / late / never -> ping '
+            'timeout, client disconnect(), server DISCONNECT, engine.io '
+            'CLOSE) x fault patterns for up to 8 attempts (transport refusal, '
+            'namespace refusal, accept) x shutdown() inside a back-off x a '
+            'second loss right after a success, with the real client and '
+            'real engine.io state machine in virtual time; oracle on the '
+            'recorded attempts: wait intervals within nominal +- jitter, '
+            'identical parameters and auth, attempt bound, none after '
+            'success / shutdown / intentional end, one effort at a time, '
+            'liveness once the pattern accepts.'),
     'C11': ('DESIGN 4/C11',
             'Seeded search over generations of wire peers living random lives '
             '(connects incl. refused, rooms, events incl. malformed, binary '
